@@ -6,7 +6,8 @@ from ..core import BaseRenderer, BlockState
 from ..util import strip_end
 from ._list import render_list
 
-fenced_re = re.compile(r"^[`~]+", re.M)
+# a closing fence may be indented by up to three spaces
+fenced_re = re.compile(r"^ {0,3}([`~]+)", re.M)
 
 
 class MarkdownRenderer(BaseRenderer):
@@ -109,7 +110,8 @@ class MarkdownRenderer(BaseRenderer):
             code += "\n"
 
         marker = token.get("marker")
-        if not marker:
+        if not marker or _closes_fence(marker, code):
+            # (de-indenting the body of an indented fence can turn a code line into a closing fence)
             marker = _get_fenced_marker(code)
         marker2 = cast(str, marker)
         return marker2 + info + "\n" + code + marker2 + "\n\n"
@@ -132,6 +134,11 @@ class MarkdownRenderer(BaseRenderer):
         return render_list(self, token, state)
 
 
+def _closes_fence(marker: str, code: str) -> bool:
+    pattern = r"^ {0,3}" + re.escape(marker[0]) + "{" + str(len(marker)) + r",}[ \t]*$"
+    return re.search(pattern, code, re.M) is not None
+
+
 def _get_fenced_marker(code: str) -> str:
     found = fenced_re.findall(code)
     if not found:
@@ -150,4 +157,4 @@ def _get_fenced_marker(code: str) -> str:
 
     if not waves:
         return "~~~"
-    return "`" * (max(ticks) + 1)
+    return "`" * max(3, max(ticks) + 1)
